@@ -134,6 +134,7 @@ def run(chk):
         exhaustive=True)
 
 
+FRACTIONAL_DIM = ["gauss", "oersted", "franklin", "maxwell", "statvolt", "statampere", "stattesla", "statweber"]     # [mass]**0.5 ... dimensions
 DIMLESS_NAMED = ["radian", "degree", "percent", "ppm", "bit", "byte", "count", "steradian", "turn", "permille"]
 
 
@@ -154,6 +155,8 @@ def drive_default(chk, rng, n):
             if rng.random() < 0.4:
                 nm = rng.choice(pnames) + nm
             d[nm] = rng.choice([1, 1, 2, 3, -1, -2, -3])
+        if rng.random() < 0.08:
+            d[rng.choice(FRACTIONAL_DIM)] = rng.choice([1, 2, -1])
         if rng.random() < 0.12:
             # several distinct dimensionless named units next to a dimensional one: they are mergeable (equal - empty - dimensionality)
             for nm in rng.sample(DIMLESS_NAMED, rng.randint(2, 3)):
@@ -270,6 +273,30 @@ def special_inputs(chk):
                 continue
             if twin.units != want.units or abs(float(twin.magnitude) - float(want.magnitude)) > 1e-9 * max(1.0, abs(float(want.magnitude))):
                 chk.diverge({"clause": "in-place-differs", "helper": form, "unit": "logarithmic"}, {"unit": un, "functional": str(want), "in_place": str(twin)})
+    # units of half-integer dimension (Gaussian / ESU) next to units over the same base dimensions: reduce has nothing to merge but must
+    # not fail; value and dimensionality are kept
+    for expr in ("gauss * pascal", "franklin * joule", "statvolt / newton", "oersted * kilogram / second", "maxwell ** 2 / joule"):
+        for form in ("to_reduced_units", "ito_reduced_units", "auto_reduce"):
+            chk.case(("fractional-dimension-reduce", expr, form))
+            try:
+                q = ureg.Quantity(2.5, expr)
+                if form == "to_reduced_units":
+                    r = q.to_reduced_units()
+                elif form == "ito_reduced_units":
+                    r = ureg.Quantity(2.5, expr)
+                    r.ito_reduced_units()
+                else:
+                    import pint as _p
+                    ua = _p.UnitRegistry(auto_reduce_dimensions=True)
+                    parts = expr.replace("**", "^").split(" ")
+                    r = ua.Quantity(2.5, expr) * ua.Quantity(1.0, "dimensionless")
+                    q = ua.Quantity(2.5, expr)
+                ok = r.dimensionality == q.dimensionality and abs(r.to_root_units().magnitude - q.to_root_units().magnitude) <= 1e-9 * abs(q.to_root_units().magnitude)
+            except Exception as e:
+                chk.diverge({"clause": "helper-raises", "helper": "reduced", "exc": type(e).__name__, "class": "fractional-dimension"}, {"units": expr, "form": form})
+                continue
+            if not ok:
+                chk.diverge({"clause": "physical-value", "helper": "reduced", "class": "fractional-dimension"}, {"units": expr, "form": form, "result": str(r)})
     # uncertain magnitudes: the nominal value decides the prefix
     for m, un in ((ufloat(2500.0, 1.0), "kilometer"), (ufloat(0.0025, 0.0001), "millisecond"), (ufloat(2.5e7, 1.0), "gram")):
         chk.case(("ufloat-compact", repr(m), un))
